@@ -12,7 +12,8 @@ import ast
 from typing import Dict, List, Optional
 
 from ..index import AnalysisError, call_name, norm, norm1, names_in
-from .common import calls, enclosing, enclosing_all, fctx, in_body, is_name, method_calls, pfind, pmatch, stmts
+from ..sem import Sem, reachable_helpers
+from .common import calls, const_of, enclosing, enclosing_all, fctx, in_body, is_name, kwarg, method_calls, pfind, pmatch, stmts
 
 LEVEL = "other"
 EXPLANATION = (
@@ -26,6 +27,15 @@ EXPLANATION = (
 BK = "wannierberri/w90files/bkvectors.py"
 
 
+def _canon_it(txt: str) -> str:
+    """Rename abstract iteration indices ITn_line in order of appearance (I0, I1, …)."""
+    import re
+    seen: Dict[str, str] = {}
+    def rep(m):
+        return seen.setdefault(m.group(0), f"I{len(seen)}")
+    return re.sub(r"IT\d+_\d+", rep, txt)
+
+
 def run(ctx) -> None:
     idx = ctx.index
     c = idx.cls(BK, "BKVectors")
@@ -35,64 +45,83 @@ def run(ctx) -> None:
     gw = c.methods.get("get_shell_weights")
     if gw is None:
         raise AnalysisError("BKVectors.get_shell_weights vanished")
-    cfg, du, pm = fctx(gw)
+    S = Sem(idx, gw)
+    cfg, du, pm = S.cfg, S.du, S.pm
     r1.instance(gw.short)
-    rets = [s for s in stmts(gw.node) if isinstance(s, ast.Return) and isinstance(s.value, ast.Tuple)]
-    if len(rets) != 1:
-        raise AnalysisError("get_shell_weights: expected one tuple return (success)")
+    params = gw.params
+    tolp = next((p_ for p_ in params if "complete" in p_ or p_.endswith("_tol")), None)
+    sklp, skcp = (params[1], params[2]) if len(params) > 2 else (None, None)
+    rets = [s_ for s_ in stmts(gw.node) if isinstance(s_, ast.Return) and isinstance(s_.value, ast.Tuple) and len(s_.value.elts) == 3]
+    if len(rets) != 1 or tolp is None:
+        r1.expect(False, "success return located", gw, gw.node, "get_shell_weights: expected one `return wk, bk_cart, bk_grid` and a completeness tolerance parameter")
+        return
     ok_ret = rets[0]
-    tests = [s for s in stmts(gw.node) if isinstance(s, ast.If) and isinstance(s.test, ast.Compare) and len(s.test.ops) == 1
-             and isinstance(s.test.ops[0], (ast.Gt, ast.GtE)) and norm(s.test.comparators[0]) == "bk_complete_tol"]
+    at_ret = cfg.node(ok_ret)
+    el = [S.element(e_, at_ret) for e_ in ok_ret.value.elts]
+    elt = [_canon_it(norm(x)) if x is not None else None for x in el]
+    WS = None
+    if all(x is not None for x in elt) and elt[0].endswith("[I0]"):
+        WS = elt[0][:-4]
+    r2 = ctx.rule("R22.2", "whole shells with one weight; symmetric search box", min_instances=2)
+    r2.instance(f"{gw.short}: expansion of the shells")
+    if any(x is None for x in elt):
+        r2.expect(False, "expansion of the shells into the returned arrays understood", gw, ok_ret,
+                  "get_shell_weights: could not follow how the returned (wk, bk_cart, bk_grid) are assembled from the shells")
+    else:
+        r2.check(WS is not None and elt[1] == f"{skcp}[I0][I1]" and elt[2] == f"{sklp}[I0][I1]",
+                 "every vector of every selected shell is returned (Cartesian and lattice form alike) with its shell's weight", gw, ok_ret,
+                 f"the returned arrays are not `weight[s]`, `{skcp}[s][v]`, `{sklp}[s][v]` over all shells s and all their vectors v (got wk ↦ …{elt[0][-40:]}, "
+                 f"bk_cart ↦ {elt[1][-60:]}, bk_grid ↦ {elt[2][-60:]}): a shell is truncated or weights are mis-assigned, so the returned set is not made of "
+                 f"whole shells / not closed under b → −b", stmt="shell expansion")
+    tests = [s_ for s_ in stmts(gw.node) if isinstance(s_, ast.If) and isinstance(s_.test, ast.Compare) and len(s_.test.ops) == 1
+             and ((isinstance(s_.test.ops[0], (ast.Gt, ast.GtE)) and norm(s_.test.comparators[0]) == tolp)
+                  or (isinstance(s_.test.ops[0], (ast.Lt, ast.LtE)) and norm(s_.test.left) == tolp))]
     if len(tests) != 1:
-        r1.violation(gw, ok_ret, "the completeness test `tol > bk_complete_tol` is gone from get_shell_weights: incomplete shell sets are "
+        r1.violation(gw, ok_ret, f"the completeness test `tol > {tolp}` is gone from get_shell_weights: incomplete shell sets are "
                      "returned as if they satisfied Σ_b w_b b_i b_j = δ_ij", stmt="completeness test missing")
     else:
         tst = tests[0]
         tnode = cfg.node(tst)
-        # the body of the test must not fall through
-        body_nodes = {cfg.node_of[n] for s in tst.body for n in ast.walk(s) if n in cfg.node_of}
-        falls = [b for b in body_nodes if any(y not in body_nodes and y not in (cfg.exit, cfg.raise_) for y in cfg.g.successors(b))]
-        r1.check(not falls, "a failed completeness test leaves the function (return message / raise)", gw, tst,
+        from ..sem import _leaves_function
+        r1.check(_leaves_function(tst.body), "a failed completeness test leaves the function (return message / raise)", gw, tst,
                  "when the completeness test fails the function can still fall through to the success return")
-        r1.check(cfg.dominates(tnode, cfg.node(ok_ret)), "the success return is dominated by the completeness test", gw, ok_ret,
+        r1.check(cfg.dominates(tnode, at_ret) and not any(x is ok_ret for b_ in tst.body for x in ast.walk(b_)),
+                 "the success return is dominated by the completeness test", gw, ok_ret,
                  "the success return of get_shell_weights can be reached without passing the completeness test",
-                 path=cfg.describe_path(cfg.path_avoiding(cfg.entry, cfg.node(ok_ret), [tnode]) or []))
-        # what is tested
-        tolname = norm(tst.test.left)
-        sl, _, _ = du.backward_slice(tst.test.left, tnode)
-
-        def in_slice(pat, metas, binding=None):
-            for e in sl:
-                for n_, b_ in pmatch(e, pat, metas, binding):
-                    return b_
-            return None
-        b1 = in_slice("np.linalg.norm(CE - np.eye(3))", {"CE"})
-        b2 = in_slice("sum(W * M for W, M in zip(WS, SM))", {"W", "M", "WS", "SM"}) or in_slice("sum(M * W for W, M in zip(WS, SM))", {"W", "M", "WS", "SM"})
-        b3 = in_slice("[KC.T.dot(KC) for KC in SKC]", {"KC", "SKC"}) or in_slice("[KC.T @ KC for KC in SKC]", {"KC", "SKC"})
-        expanded = pmatch(gw.node, "for W, SKL, SKC in zip(WS, L1, L2):\n    ...", {"W", "SKL", "SKC", "WS", "L1", "L2"})
-        if b2 and b3:
-            smd = du.single_def(b2["SM"], tnode) if b2["SM"].isidentifier() else None
-            if smd is None or smd.value is None or not (pmatch(smd.value, "[KC.T.dot(KC) for KC in SKC]", {"KC", "SKC"}, {"SKC": b3["SKC"]})
-                                                         or pmatch(smd.value, "[KC.T @ KC for KC in SKC]", {"KC", "SKC"}, {"SKC": b3["SKC"]})):
-                b2 = None
-        same_shells = bool(b2 and b3 and expanded) and any(x[1]["WS"] == b2["WS"] and x[1]["L2"] == b3["SKC"] for x in expanded)
-        r1.check(bool(b1 and b2 and b3) and same_shells,
-                 f"`{tolname}` = ‖Σ_s w_s (Bᵀ B)_s − 1‖ over the candidate shells", gw, tst,
-                 f"the tested quantity `{tolname}` is no longer the deviation of Σ_s w_s Σ_b b bᵀ from the identity for the shells that are "
-                 f"returned")
+                 path=cfg.describe_path(cfg.path_avoiding(cfg.entry, at_ret, [tnode]) or []))
+        tq = tst.test.left if norm(tst.test.comparators[0]) == tolp else tst.test.comparators[0]
+        tres = S.resolve(tq, tnode)
+        okq = False
+        for wm in ("W_ * M_", "M_ * W_"):
+            for gram in ("KC_.T.dot(KC_)", "KC_.T @ KC_", "np.dot(KC_.T, KC_)"):
+                for wrap in ("np.array([{g} for KC_ in SKC])", "[{g} for KC_ in SKC]"):
+                    pat = f"np.linalg.norm(sum({wm} for W_, M_ in zip(WS_, {wrap.format(g=gram)})) - np.eye(3))"
+                    m_ = pmatch(tres, pat, {"W_", "M_", "WS_", "KC_", "SKC"})
+                    if m_ and m_[0][0] is tres:
+                        okq = m_[0][1]["SKC"] == skcp and WS is not None and m_[0][1]["WS_"] == WS
+        r1.check(okq, f"the tested quantity is ‖Σ_s w_s (Bᵀ B)_s − 1‖ over the very shells and weights that are returned", gw, tst,
+                 f"the tested quantity `{norm1(tq)}` is no longer the deviation of Σ_s w_s Σ_b b bᵀ from the identity for the shells and weights that are returned")
     for mname in ("find_bk_vectors", "from_kpoints", "from_nnkp"):
         m = c.methods.get(mname)
         if m is None:
             raise AnalysisError(f"BKVectors.{mname} vanished")
         r1.instance(m.short)
-        mcfg, mdu, mpm = fctx(m)
+        MS = Sem(idx, m)
+        mcfg, mdu, mpm = MS.cfg, MS.du, MS.pm
         if mname == "find_bk_vectors":
-            rr = [s for s in stmts(m.node) if isinstance(s, ast.Return) and s.value is not None]
+            rr = [s_ for s_ in stmts(m.node) if isinstance(s_, ast.Return) and s_.value is not None]
+            r1.expect(len(rr) >= 1, "find_bk_vectors has a value return", m, m.node, "find_bk_vectors: no return with a value")
             for rt in rr:
-                sl, _, _ = mdu.backward_slice(rt.value, mcfg.node(rt))
-                src = [e for e in sl if isinstance(e, ast.Call) and call_name(e).endswith("get_shell_weights")]
-                guard = [g for g in enclosing_all(mpm, rt, ast.If) if "isinstance(wkbk, str)" in norm(g.test) and in_body(g.orelse, rt)]
-                r1.check(bool(src) and bool(guard), "returned (wk, bk_cart, bk_grid) is the success value of get_shell_weights", m, rt,
+                rres = MS.resolve(rt.value, mcfg.node(rt))
+                callt = None
+                if isinstance(rres, ast.Tuple) and len(rres.elts) == 3 and all(isinstance(x, ast.Subscript) and const_of(x.slice) == i_ for i_, x in enumerate(rres.elts)) \
+                        and len({norm(x.value) for x in rres.elts}) == 1:
+                    callt = rres.elts[0].value
+                elif isinstance(rres, ast.Call):
+                    callt = rres
+                okc = callt is not None and isinstance(callt, ast.Call) and call_name(callt).endswith("get_shell_weights")
+                okg = okc and any(t_ == f"isinstance({norm(callt)}, str)" and p_ is False for t_, p_, _ in MS.conditions(rt))
+                r1.check(okc and okg, "returned (wk, bk_cart, bk_grid) is the (non-message) success value of get_shell_weights", m, rt,
                          f"find_bk_vectors returns `{norm1(rt.value)}` which is not the (non-message) result of get_shell_weights")
         else:
             w = [x for x in ast.walk(m.node) if isinstance(x, ast.Call) and call_name(x).endswith(("find_bk_vectors", "get_shell_weights"))]
@@ -106,18 +135,11 @@ def run(ctx) -> None:
             r1.check(okf, f"{mname}: weights and b-vectors of the object come from the checked solver", m, ctor[0] if ctor else m.node,
                      f"{mname} builds the BKVectors object from weights/vectors that did not pass get_shell_weights")
 
-    # ---------------------------------------------------------------- R22.2
-    r2 = ctx.rule("R22.2", "whole shells with one weight; symmetric search box", min_instances=2)
-    r2.instance(f"{gw.short}: expansion loop")
-    exp = pmatch(gw.node, "for W, SKL, SKC in zip(weight_shell, shell_klatt, shell_kcart):\n    for KL, KC in zip(SKL, SKC):\n        BG.append(KL)\n        BC.append(KC)\n        WK.append(W)",
-                 {"W", "SKL", "SKC", "KL", "KC", "BG", "BC", "WK"})
-    r2.check(len(exp) == 1, "every vector of every selected shell is returned with its shell's weight", gw, gw.node,
-             "the shells are no longer expanded vector by vector with the shell weight (a shell is truncated, or weights are mis-assigned): "
-             "the returned set is not closed under b → −b / not made of whole shells", stmt="shell expansion")
+    # ---------------------------------------------------------------- R22.2 (continued)
     fb = c.methods["find_bk_vectors"]
+    FS = Sem(idx, fb)
     r2.instance(f"{fb.short}: search box")
-    t = norm(fb.node).replace(" ", "")
-    verdict, how = _search_box(fb)
+    verdict, how = _search_box(fb, FS)
     if verdict is None:
         r2.expect(False, "search box recognised", fb, fb.node, f"find_bk_vectors: the construction of the candidate vectors k_latt is not one of the "
                   f"recognised forms ({how})")
@@ -126,56 +148,149 @@ def run(ctx) -> None:
                  f"the search box is not symmetric ({how}): shells are not closed under b → −b, so half shells are selected and the "
                  f"completeness relation is solved with the wrong weights", stmt="search box")
     ks = c.methods["k_to_shells"]
-    tk = norm(ks.node).replace(" ", "")
-    r2.check("shell_kcart=[k_cart[b1:b2]forb1,b2inzip(brd,brd[1:])]" in tk and "shell_klatt=[k_latt[b1:b2]forb1,b2inzip(brd,brd[1:])]" in tk
-             and "select_nonzero=k_length>kmesh_tol" in tk and "srt=np.argsort(k_length)" in tk,
-             "shells = consecutive blocks of the length-sorted non-zero vectors (lattice and Cartesian forms cut alike)", ks, ks.node,
-             "k_to_shells no longer cuts the sorted vectors into the same blocks for lattice and Cartesian coordinates", stmt="k_to_shells")
-    r2.check("basis=recip_lattice/mp_grid[:,None]" in t and "k_cart=k_latt@basis" in t, "Cartesian b = integer coordinates · (reciprocal lattice / mesh)", fb, fb.node,
-             "the mesh basis is no longer recip_lattice / mp_grid", stmt="basis")
+    KS = Sem(idx, ks)
+    klp, kcp = ks.params[1], ks.params[2]
+    krets = [s_ for s_ in stmts(ks.node) if isinstance(s_, ast.Return) and isinstance(s_.value, ast.Tuple) and len(s_.value.elts) == 2]
+    if len(krets) != 1:
+        r2.expect(False, "k_to_shells return located", ks, ks.node, "k_to_shells: `return shell_klatt, shell_kcart` not found")
+    else:
+        KS._caller_done = True   # compare in terms of the function's own parameters
+        a_, b_ = (KS.rnorm(x, KS.cfg.node(krets[0])) for x in krets[0].value.elts)
+        import re
+        swap = re.sub(rf"(?<![A-Za-z0-9_]){re.escape(klp)}(?![A-Za-z0-9_])", kcp, a_)
+        r2.check(swap == b_ and klp in a_, "lattice and Cartesian vectors are filtered, sorted and cut into shells by one and the same recipe", ks, krets[0],
+                 "k_to_shells cuts the lattice-coordinate and the Cartesian vectors differently: the returned integer b-vectors are not the returned Cartesian ones")
+        r2.check(any(x in b_ for x in (f"np.argsort(np.linalg.norm({kcp}, axis=1)", f"np.argsort(np.linalg.norm({kcp}[")) and
+                 any(x in b_ for x in (f"np.linalg.norm({kcp}, axis=1) > kmesh_tol", f"np.linalg.norm({kcp}, axis=1) > {ks.params[3] if len(ks.params) > 3 else 'kmesh_tol'}")),
+                 "shells = runs of the non-zero vectors sorted by Cartesian length", ks, krets[0],
+                 "k_to_shells no longer drops the zero vector and sorts by Cartesian length before cutting shells", stmt="k_to_shells")
+    kc_call = [x for x in ast.walk(fb.node) if isinstance(x, ast.Call) and call_name(x).endswith("k_to_shells")]
+    if len(kc_call) != 1 or len(kc_call[0].args) < 2:
+        r2.expect(False, "k_to_shells call located", fb, fb.node, "find_bk_vectors: call of k_to_shells(k_latt, k_cart, …) not found")
+    else:
+        at_k = FS.du.node_of_expr(kc_call[0])
+        la = norm(kc_call[0].args[0])
+        cres = FS.resolve(kc_call[0].args[1], at_k)
+        ca = norm(cres)
+        lar = FS.rnorm(kc_call[0].args[0], at_k)
+        mp = fb.params[2]
+        bases = [f"{fb.params[1]} / {g_}[:, None]" for g_ in (mp, f"np.array({mp}, dtype=int)", f"np.array({mp})")]
+        okb = (isinstance(cres, ast.BinOp) and isinstance(cres.op, ast.MatMult) and norm(cres.left) == lar and norm(cres.right) in bases) or \
+            (isinstance(cres, ast.Call) and isinstance(cres.func, ast.Attribute) and cres.func.attr == "dot" and norm(cres.func.value) == lar and len(cres.args) == 1
+             and norm(cres.args[0]) in bases)
+        r2.check(okb, "Cartesian b = integer coordinates · (reciprocal lattice / mesh)", fb, kc_call[0],
+                 f"the Cartesian candidates `{ca[-90:]}` are not the integer candidates times recip_lattice / mp_grid", stmt="basis")
 
     # ---------------------------------------------------------------- R22.3
     r3 = ctx.rule("R22.3", "neighbour index and lattice shift satisfy k + b = k' + G")
     fg = c.methods.get("find_G_and_neighbours")
     r3.instance(fg.short)
-    gcfg, gdu, gpm = fctx(fg)
-    M3 = {"IK2", "NK", "G_", "KNB", "KL", "MP", "NB", "KI", "IB", "GG"}
-    full = pmatch(fg.node, "for IK2 in range(NK):\n    G_ = KNB - KL[IK2]\n    if np.all(G_ % MP == 0):\n        NB[KI][IB] = IK2\n"
-                  "        GG[KI][IB] = G_ // MP\n        break\nelse:\n    raise ANY", M3)
-    search = pmatch(fg.node, "for IK2 in range(NK):\n    ...\n    if ANY:\n        ...\n        break\n    ...\nelse:\n    ...", {"IK2", "NK"}) or \
-        pmatch(fg.node, "for IK2 in range(NK):\n    ...\n    if ANY:\n        ...\n        break\n    ...", {"IK2", "NK"}) or \
-        pmatch(fg.node, "for IK2 in range(NK):\n    ...\n    if np.all(ANY % ANY == 0):\n        ...", {"IK2", "NK"})
+    _neighbour_rule(r3, idx, fg)
+
+
+def _neighbour_rule(r3, idx, fg) -> None:
     labels = _label_idiom(fg)
-    if search:
-        lp = search[0][0]
-        r3.idiom("linear search over all k-points under the integer congruence test")
-        r3.check(len(full) == 1, "for every candidate k': g = (k+b) − k'; if g ≡ 0 (mod mesh): store neighbour and G = g // mesh together, stop; "
-                 "no candidate → raise", fg, lp,
-                 "the neighbour search is no longer `g = (k+b) − k'; if all(g % mesh == 0): neighbours[k][b] = k'; G[k][b] = g // mesh; break; else: raise`: "
-                 "neighbour index and lattice shift are not stored together under the congruence test, or a missing neighbour is tolerated "
-                 "(k + b = k' + G is violated for some entries)")
-        if full:
-            bb = full[0][1]
-            nb = gdu.single_def(bb["KNB"], gcfg.node(lp)) if bb["KNB"].isidentifier() else None
-            knb = nb.value if nb is not None else ast.parse(bb["KNB"], mode="eval").body
-            okk = bool(pmatch(knb, f"{bb['KL']}[{bb['KI']}] + BKG[{bb['IB']}]", {"BKG"})) and pmatch(knb, f"{bb['KL']}[{bb['KI']}] + BKG[{bb['IB']}]", {"BKG"})[0][0] is knb
-            r3.check(okk, "k + b is formed on the integer mesh from the same k and b that index the stores", fg, nb.stmt if nb is not None else lp,
-                     f"`{bb['KNB']}` is not {bb['KL']}[{bb['KI']}] + bk_grid[{bb['IB']}]: the stored neighbour belongs to another (k, b) pair")
-            kl = gdu.single_def(bb["KL"], gcfg.node(lp)) if bb["KL"].isidentifier() else None
-            r3.check(kl is not None and bool(pmatch(kl.value, "np.rint(KR * MP).astype(int)", {"KR", "MP"}, {"MP": bb["MP"]}))
-                     or (kl is not None and bool(pmatch(kl.value, "np.rint(KR * MP[None, :]).astype(int)", {"KR", "MP"}, {"MP": bb["MP"]}))),
-                     "mesh coordinates are integers (rint of k·mesh)", fg, kl.stmt if kl is not None else lp,
-                     "k-points are no longer converted to integer mesh coordinates with rint(k·mesh)")
-    elif labels is not None:
-        r3.idiom("label search: k-points labelled by a flattened mesh index, neighbours looked up by label")
-        ok_l, msg_l, node_l = labels
-        r3.check(ok_l, "the flattened label is injective on the mesh (mixed-radix strides) and G is (k+b−k') // mesh", fg, node_l, msg_l)
+    funcs = [fg] + reachable_helpers(idx, fg)
+    tests = []
+    for g in funcs:
+        for n in ast.walk(g.node):
+            if isinstance(n, ast.If):
+                m_ = pmatch(n.test, "np.all(X_ % M_ == 0)", {"X_", "M_"}) or pmatch(n.test, "not np.any(X_ % M_)", {"X_", "M_"}) or pmatch(n.test, "(X_ % M_ == 0).all()", {"X_", "M_"})
+                if m_ and m_[0][0] is n.test:
+                    tests.append((g, n, m_[0][1]))
+    if not tests:
+        if labels is not None:
+            r3.idiom("label search: k-points labelled by a flattened mesh index, neighbours looked up by label")
+            ok_l, msg_l, node_l = labels
+            r3.check(ok_l, "the flattened label is injective on the mesh (mixed-radix strides) and G is (k+b−k') // mesh", fg, node_l, msg_l)
+        else:
+            r3.expect(False, "neighbour search recognised", fg, fg.node,
+                      "find_G_and_neighbours: neither the linear search under the congruence test nor a label lookup was recognised")
+        return
+    if len(tests) != 1:
+        r3.expect(False, "one congruence test", fg, fg.node, "find_G_and_neighbours: more than one congruence test found")
+        return
+    g, tst, b = tests[0]
+    r3.idiom("linear search over all k-points under the integer congruence test" + (f" (in helper {g.qualname})" if g is not fg else ""))
+    S = Sem(idx, g)
+    at = S.cfg.node(tst)
+    xs, ms = ast.parse(b["X_"], mode="eval").body, ast.parse(b["M_"], mode="eval").body
+    xres = S.resolve(xs, at)
+    mres = S.rnorm(ms, at)
+    mp = fg.params[3] if len(fg.params) > 3 else "mp_grid"
+    m_ = pmatch(xres, "KL_[K1_] + BG_[IB_] - KL_[K2_]", {"KL_", "K1_", "BG_", "IB_", "K2_"}) or pmatch(xres, "BG_[IB_] + KL_[K1_] - KL_[K2_]", {"KL_", "K1_", "BG_", "IB_", "K2_"})
+    okx = bool(m_) and m_[0][0] is xres
+    bb = m_[0][1] if okx else {}
+    okkl = okx and any(bb["KL_"] == f"np.rint({fg.params[1]} * {g_}).astype(int)" for g_ in (mp, f"{mp}[None, :]", f"np.array({mp}, dtype=int)[None, :]", f"np.array({mp})[None, :]",
+                                                                                             f"np.array({mp}, dtype=int)", f"np.array({mp})"))
+    okbg = okx and bb["BG_"] == fg.params[2]
+    okm = mres in (mp, f"np.array({mp}, dtype=int)", f"np.array({mp})")
+    r3.check(okx and okkl and okbg and okm, "the test is ((k + b) − k') ≡ 0 (mod mesh) on the integer mesh coordinates rint(k·mesh)", g, tst,
+             f"the congruence test is applied to `{norm(xres)[-110:]}` modulo `{mres}`: not (k + b) − k' in integer mesh coordinates modulo the mesh")
+    if not okx:
+        return
+    k1, ib, k2 = bb["K1_"], bb["IB_"], bb["K2_"]
+    # what is recorded under the test
+    body_txt = [norm(s_) for s_ in tst.body]
+    gq = f"{b['X_']} // {b['M_']}"
+    stored_inline = None
+    for s_ in tst.body:
+        pass
+    form_inline = len(tst.body) >= 2 and any(pmatch(s_, f"NB_[A_][B_] = {k2}", {"NB_", "A_", "B_"}) for s_ in tst.body) and \
+        any(pmatch(s_, f"GG_[A_][B_] = {gq}", {"GG_", "A_", "B_"}) for s_ in tst.body)
+    form_return = len(tst.body) == 1 and isinstance(tst.body[0], ast.Return) and isinstance(tst.body[0].value, ast.Tuple) and \
+        [norm(x) for x in tst.body[0].value.elts] == [k2, gq]
+    loop = enclosing(S.pm, tst, ast.For)
+    from .common import index_domain
+    iv, seqs = index_domain(loop) if loop is not None else (None, [])
+    k2var = k2 if k2.isidentifier() else None
+    cover = loop is not None and (iv == k2 or (isinstance(loop.target, ast.Name) and loop.target.id == k2)) and \
+        (any(S.rnorm(ast.parse(q_, mode="eval").body, S.cfg.node(loop)) == bb["KL_"] or q_ == fg.params[1] for q_ in seqs) or
+         S.rnorm(loop.iter, S.cfg.node(loop)) in (f"range({fg.params[1]}.shape[0])", f"range(len({fg.params[1]}))"))
+    r3.check(cover, "every k-point of the list is a candidate neighbour", g, loop or tst, "the candidate loop does not run over all k-points")
+    if form_inline:
+        nbm = [pmatch(s_, f"NB_[A_][B_] = {k2}", {"NB_", "A_", "B_"}) for s_ in tst.body if pmatch(s_, f"NB_[A_][B_] = {k2}", {"NB_", "A_", "B_"})][0][0][1]
+        ggm = [pmatch(s_, f"GG_[A_][B_] = {gq}", {"GG_", "A_", "B_"}) for s_ in tst.body if pmatch(s_, f"GG_[A_][B_] = {gq}", {"GG_", "A_", "B_"})][0][0][1]
+        def rr(t_):
+            return S.rnorm(ast.parse(t_, mode="eval").body, at)
+        r3.check((rr(nbm["A_"]), rr(nbm["B_"])) == (k1, ib) == (rr(ggm["A_"]), rr(ggm["B_"])) and isinstance(tst.body[-1], ast.Break),
+                 "neighbour index and G = g // mesh are stored together for the same (k, b), then the search stops", g, tst,
+                 f"under the congruence test the code does {body_txt}: neighbour index and lattice shift are not stored together for the (k, b) pair the "
+                 f"test was made for (k + b = k' + G is violated for some entries)")
+        r3.check(loop is not None and bool(loop.orelse) and isinstance(loop.orelse[-1], ast.Raise), "a missing neighbour raises", g, loop or tst,
+                 "a missing neighbour no longer raises (entry silently left at 0)")
+    elif form_return and g is not fg:
+        S._bind_caller()
+        if S._caller is None:
+            r3.expect(False, "helper has one call site", g, g.node, f"{g.qualname}: a single call site was not found")
+            return
+        CS, call, _ = S._caller
+        cst = enclosing(CS.pm, call, ast.stmt)
+        found = cst.targets[0].id if isinstance(cst, ast.Assign) and isinstance(cst.targets[0], ast.Name) and cst.value is call else None
+        okstore = False
+        okraise = False
+        if found:
+            for s_ in ast.walk(CS.node):
+                m2 = pmatch(s_, f"NB_[A_][B_], GG_[A_][B_] = {found}", {"NB_", "GG_", "A_", "B_"}) if isinstance(s_, ast.Assign) else None
+                if m2 and m2[0][0] is s_:
+                    a2, b2 = m2[0][1]["A_"], m2[0][1]["B_"]
+                    okstore = (CS.rnorm(ast.parse(a2, mode="eval").body, CS.cfg.node(s_)), CS.rnorm(ast.parse(b2, mode="eval").body, CS.cfg.node(s_))) == (k1, ib) or (a2, b2) == (k1, ib)
+                    okraise = any(t_ == f"{found} is None" and p_ is False for t_, p_, _ in CS.conditions(s_, resolve=False))
+        elif isinstance(cst, ast.Assign) and isinstance(cst.targets[0], ast.Tuple) and cst.value is call:
+            m2 = pmatch(cst, "NB_[A_][B_], GG_[A_][B_] = ANY", {"NB_", "GG_", "A_", "B_"})
+            okstore = bool(m2) and (m2[0][1]["A_"], m2[0][1]["B_"]) == (k1, ib)
+        r3.check(okstore, "the helper's (index, G) is stored into neighbours[k][b], G[k][b] of the (k, b) pair it was searched for", CS.fi or fg, cst,
+                 "the result of the neighbour search is not stored as (neighbours[k][b], G[k][b]) for the (k, b) pair that was searched")
+        tail = g.node.body[-1]
+        none_end = isinstance(tail, ast.Return) and (tail.value is None or const_of(tail.value) is None) or not isinstance(tail, (ast.Return, ast.Raise))
+        r3.check(okraise or (isinstance(tail, ast.Raise)), "a missing neighbour raises", CS.fi or fg, cst,
+                 "a missing neighbour no longer raises (the helper's None / fall-through is not turned into an error)")
     else:
-        r3.expect(False, "neighbour search recognised", fg, fg.node,
-                  "find_G_and_neighbours: neither the linear search under the congruence test nor a label lookup was recognised")
+        r3.check(False, "neighbour and G recorded under the test", g, tst,
+                 f"under the congruence test the code does {body_txt}: neighbour index and lattice shift g // mesh are not recorded together")
 
 
-def _search_box(fb):
+def _search_box(fb, FS=None):
     """(symmetric?, description) for the candidate-vector box of find_bk_vectors; (None, why) when the form is unknown."""
     from ..algebra import Rat, to_rat
     cfg, du, pm = fctx(fb)
@@ -224,6 +339,36 @@ def _search_box(fb):
             ok = ok and sym
             desc.append(f"{g.target.id} ∈ [{norm(g.iter.args[0]) if len(g.iter.args) == 2 else 0}, {norm(g.iter.args[-1])})")
         return ok, "; ".join(desc)
+    # form C: itertools.product(range, range, range) / product(*[range(lo(i), hi(i)) for i in range(3)])
+    pc = [c_ for c_ in ast.walk(v) if isinstance(c_, ast.Call) and call_name(c_) in ("product", "itertools.product")]
+    if len(pc) == 1:
+        pa = pc[0].args
+        rngs = None
+        if len(pa) == 3 and all(isinstance(x, ast.Call) and call_name(x) == "range" for x in pa):
+            rngs = [(x, None) for x in pa]
+        elif len(pa) == 1 and isinstance(pa[0], ast.Starred):
+            lst = du.resolve_local(pa[0].value, at)
+            if isinstance(lst, ast.ListComp) and len(lst.generators) == 1 and norm(lst.generators[0].iter) == "range(3)" and isinstance(lst.elt, ast.Call) \
+                    and call_name(lst.elt) == "range" and isinstance(lst.generators[0].target, ast.Name):
+                rngs = [(lst.elt, lst.generators[0].target.id)]
+            elif isinstance(lst, (ast.List, ast.Tuple)) and len(lst.elts) == 3 and all(isinstance(x, ast.Call) and call_name(x) == "range" for x in lst.elts):
+                rngs = [(x, None) for x in lst.elts]
+        if rngs is not None:
+            ok = True
+            desc = []
+            for rc_, ivar in rngs:
+                if not 1 <= len(rc_.args) <= 2:
+                    return None, f"`{norm1(rc_)}` is not range(lo, hi)"
+
+                def env2(x, ivar=ivar):
+                    if ivar is not None and isinstance(x, ast.Subscript) and norm(x.slice) == ivar:
+                        return Rat.sym(f"{norm(x.value)}_i")
+                    return env(x)
+                lo = to_rat(rc_.args[0], env2) if len(rc_.args) == 2 else Rat.const(0)
+                hi = to_rat(rc_.args[-1], env2)
+                ok = ok and (lo + hi - Rat.const(1)).is_zero()
+                desc.append(norm1(rc_))
+            return ok, "product of " + ", ".join(desc)
     # form B: np.array(list(np.ndindex(*E))) - O
     if isinstance(v, ast.BinOp) and isinstance(v.op, ast.Sub):
         nd = [c_ for c_ in ast.walk(v.left) if isinstance(c_, ast.Call) and call_name(c_).endswith("ndindex")]
